@@ -2,11 +2,11 @@ SPECIFICATION Spec
 CONSTANTS
   Tokens <- ResolveTokens
   Tok <- TokTable
+  ArgSet <- Args_ResolveTokens_3
   FormatNames <- Names
   Files <- FileTable
   Lib <- LibTable
   StdinContent = "cy"
-  MaxArgs = 3
   StdoutKinds = {"pipe"}
 INVARIANT CliInv
 CHECK_DEADLOCK FALSE
